@@ -37,8 +37,7 @@ macro "wkcases " h:ident : tactic => `(tactic|
     ⟨hpc, hpc', hh, hfl, hbf, hwq, hrq, hpq, hlk, hlk'⟩ | ⟨i, hpc, hpc', hheld, hh, hfl, hbf, hcap, hwq, hrq, hpq, hlk⟩ |
     ⟨i, hpc, hpc', hheld, hh, hfl, hbf, hcap, hwq, hrq, hpq, hlk⟩ | ⟨hpc, hfull, hpc', hh, hfl, hbf, hwq, hrq, hpq, hlk'⟩ |
     ⟨hpc, hfull, hpc', hh, hfl, hbf, hwq, hrq, hpq, hlk'⟩ | ⟨i, hpc, hheld, hpc', hh, hfl, hbf, hcap, hwq, hrq, hpq, hlk⟩ |
-    ⟨hpc, hpc', hh, hfl, hbf, hwq, hrq, hpq, hlk⟩ | ⟨hpc, hpc', hh, hfl, hbf, hwq, hrq, hpq, hlk⟩ |
-    ⟨hpc, hpc', hh, hfl, hbf, hwq, hrq, hpq, hlk⟩)
+    ⟨hpc, hpc', hh, hfl, hbf, hwq, hrq, hpq, hlk⟩ | ⟨hpc, hpc', hh, hfl, hbf, hwq, hrq, hpq, hlk⟩)
 
 def heldish (w : Worker) : Prop :=
   w.pc = .lockAcq ∨ w.pc = .putNowait ∨ w.pc = .putBlock ∨ (w.pc = .lockRel ∧ w.full = true)
@@ -62,7 +61,6 @@ theorem WKind.lock_cases (h : WKind s s' w w') :
     rw [hpc]; rcases hpc' with h | ⟨h, _⟩ <;> rw [h] <;> rfl
   · exact Or.inl ⟨hlk, by rw [hpc, hpc']; rfl⟩
   · exact Or.inl ⟨hlk, by rw [hpc, hpc']; rfl⟩
-  · exact Or.inl ⟨hlk, by rw [hpc, hpc']; rfl⟩
 
 theorem WKind.held_ok (h : WKind s s' w w') (h0 : heldish w → w.held.isSome) : heldish w' → w'.held.isSome := by
   unfold heldish at *
@@ -78,7 +76,6 @@ theorem WKind.held_ok (h : WKind s s' w w') (h0 : heldish w → w.held.isSome) :
   · rw [hh]; exact h0 (Or.inr (Or.inr (Or.inr ⟨hpc, hfull⟩)))
   · rcases hpc' with h | ⟨h, _⟩ <;> rw [h] at hw' <;> simp at hw'
   · rcases hpc' with h | ⟨h, _⟩ <;> rw [h] at hw' <;> simp at hw'
-  · rw [hpc'] at hw'; simp at hw'
   · rw [hpc'] at hw'; simp at hw'
   · rw [hpc'] at hw'; simp at hw'
 
@@ -125,7 +122,6 @@ theorem WKind.acct (h : WKind s s' w w') :
   · exact Or.inl ⟨by rw [hpc']; rfl, hpq, Or.inl hwq, by rw [hpc]; rfl⟩
   · exact Or.inl ⟨by rcases hpc' with h | ⟨h, _⟩ <;> rw [h] <;> rfl, hpq, Or.inl hwq, by rw [hpc]; rfl⟩
   · exact Or.inl ⟨by rcases hpc' with h | ⟨h, _⟩ <;> rw [h] <;> rfl, hpq, Or.inl hwq, by rw [hpc]; rfl⟩
-  · exact Or.inr (Or.inr (Or.inl ⟨by rw [hpc']; rfl, hpc, hwq, hpq, by rw [hpc]; rfl⟩))
   · exact Or.inr (Or.inr (Or.inl ⟨by rw [hpc']; rfl, hpc, hwq, hpq, by rw [hpc]; rfl⟩))
   · exact Or.inr (Or.inr (Or.inr ⟨by rw [hpc']; rfl, by rw [hpc]; rfl, hwq, hpq⟩))
 
